@@ -37,10 +37,12 @@ impl Bs {
 
 // ---------------- (c) blind proof statement
 #[derive(Clone, PartialEq, Eq)]
-struct Bp { suite: Suite, pk: Vec<u8>, proof: Vec<u8>, header: Vec<u8>, ph: Vec<u8>, l: usize, dmsgs: Vec<Vec<u8>>, dcmsgs: Vec<Vec<u8>>, idx: Vec<usize>, cidx: Vec<usize>, plain_iface: bool }
+struct Bp { suite: Suite, pk: Vec<u8>, proof: Vec<u8>, header: Vec<u8>, ph: Vec<u8>, l: usize, dmsgs: Vec<Vec<u8>>, dcmsgs: Vec<Vec<u8>>, idx: Vec<usize>, cidx: Vec<usize>, plain_iface: bool,
+    /// spelling only: empty lists are passed as None; L is passed as None (which means 0)
+    none_empty: bool, l_none: bool }
 impl Bp {
     fn key(&self) -> Vec<u8> {
-        let mut k = vec![self.suite as u8, self.plain_iface as u8];
+        let mut k = vec![self.suite as u8, self.plain_iface as u8, self.none_empty as u8, self.l_none as u8];
         k.extend_from_slice(&self.pk); k.extend_from_slice(&(self.l as u64).to_be_bytes());
         k.extend_from_slice(&msgs_digest(&[self.proof.clone(), self.header.clone(), self.ph.clone()]));
         k.extend_from_slice(&msgs_digest(&self.dmsgs)); k.extend_from_slice(&msgs_digest(&self.dcmsgs));
@@ -49,6 +51,8 @@ impl Bp {
         for i in &self.cidx { k.extend_from_slice(&(*i as u64).to_be_bytes()); }
         k
     }
+    /// the statement with the spellings normalised away (L = None means L = 0)
+    fn stmt(&self) -> Bp { Bp { none_empty: false, l_none: false, l: if self.l_none { 0 } else { self.l }, ..self.clone() } }
     fn in_contract(&self) -> bool { self.idx.windows(2).all(|w| w[0] < w[1]) && self.cidx.windows(2).all(|w| w[0] < w[1]) }
     fn verify_impl(&self) -> O<()> {
         if self.plain_iface {
@@ -56,7 +60,10 @@ impl Bp {
             let ai: Vec<usize> = self.idx.iter().copied().chain(self.cidx.iter().map(|j| j.wrapping_add(self.l).wrapping_add(1))).collect();
             return z(self.suite).proof_verify(&self.pk, &self.proof, Some(&self.header), Some(&self.ph), Some(&all), Some(&ai));
         }
-        z(self.suite).blind_proof_verify(&self.pk, &self.proof, Some(&self.header), Some(&self.ph), Some(self.l), Some(&self.dmsgs), Some(&self.dcmsgs), Some(&self.idx), Some(&self.cidx))
+        let om = |v: &'_ Vec<Vec<u8>>| -> bool { self.none_empty && v.is_empty() };
+        let oi = |v: &'_ Vec<usize>| -> bool { self.none_empty && v.is_empty() };
+        z(self.suite).blind_proof_verify(&self.pk, &self.proof, Some(&self.header), Some(&self.ph), if self.l_none { None } else { Some(self.l) },
+            if om(&self.dmsgs) { None } else { Some(&self.dmsgs) }, if om(&self.dcmsgs) { None } else { Some(&self.dcmsgs) }, if oi(&self.idx) { None } else { Some(&self.idx) }, if oi(&self.cidx) { None } else { Some(&self.cidx) })
     }
     fn verify_ref(&self) -> Result<(), String> {
         if self.plain_iface {
@@ -64,7 +71,7 @@ impl Bp {
             let ai: Vec<usize> = self.idx.iter().copied().chain(self.cidx.iter().map(|j| j.wrapping_add(self.l).wrapping_add(1))).collect();
             return refbbs::proof_verify(self.suite, &self.pk, &self.proof, &self.header, &self.ph, &all, &ai);
         }
-        refbbs::blind_proof_verify(self.suite, &self.pk, &self.proof, &self.header, &self.ph, self.l, &self.dmsgs, &self.dcmsgs, &self.idx, &self.cidx)
+        refbbs::blind_proof_verify(self.suite, &self.pk, &self.proof, &self.header, &self.ph, if self.l_none { 0 } else { self.l }, &self.dmsgs, &self.dcmsgs, &self.idx, &self.cidx)
     }
 }
 
@@ -90,6 +97,8 @@ pub fn run(env: &Env) {
         for m in 0..=2usize {
             roots.push(Root { id: format!("{}/commitment/M{}", s.name(), m), suite: s, l: 1, m, hn: "16B".into(), header: hs[2].1.clone(), part: Part::Commitment });
         }
+        // two disclosed messages on each side (needed for edits that permute an index list against its messages)
+        roots.push(Root { id: format!("{}/blind-proof/L3/M3/h=16B/structural/two-disclosed", s.name()), suite: s, l: 3, m: 3, hn: "16B".into(), header: hs[2].1.clone(), part: Part::BlindProof { flips: (0, 0) } });
         let shapes: Vec<(usize, usize)> = if env.thorough() { vec![(0, 0), (0, 1), (1, 0), (1, 1), (2, 1), (1, 2), (2, 2), (3, 2)] } else { vec![(0, 0), (0, 1), (1, 0), (1, 1), (2, 2)] };
         for (l, m) in shapes {
             for (hn, h) in [hs[0].clone(), hs[2].clone()] {
@@ -154,12 +163,13 @@ pub fn run(env: &Env) {
             Part::BlindProof { flips } => {
                 let sig = match zk.blind_sign(&k.sk, &k.pk, Some(&cwp), oh(&r.header), Some(&msgs)) { O::Ok(s) => s, o => { env.ctx.violation("C06:base-blind-sign-failed", &o.describe(), env.case(&r.id, det0)); return; } };
                 // disclose the first signer message and the first committed message (when present)
-                let d: Vec<usize> = if r.l > 0 { vec![0] } else { vec![] };
-                let dc: Vec<usize> = if r.m > 0 { vec![0] } else { vec![] };
+                let two = r.id.ends_with("/two-disclosed");
+                let d: Vec<usize> = if two { vec![0, r.l - 1] } else if r.l > 0 { vec![0] } else { vec![] };
+                let dc: Vec<usize> = if two { vec![0, r.m - 1] } else if r.m > 0 { vec![0] } else { vec![] };
                 let ph = hb(&r.header).to_vec();
                 let proof = match zk.blind_proof_gen(&k.pk, &sig, oh(&r.header), Some(&ph), Some(&msgs), Some(&cms), Some(&d), Some(&dc), Some(&blind)) { O::Ok(p) => p, o => { env.ctx.violation("C06:base-blind-proof-gen-failed", &o.describe(), env.case(&r.id, det0)); return; } };
                 env.ctx.steps(2);
-                let base = Bp { suite: r.suite, pk: k.pk.clone(), proof, header: hb(&r.header).to_vec(), ph, l: r.l, dmsgs: d.iter().map(|&i| msgs[i].clone()).collect(), dcmsgs: dc.iter().map(|&i| cms[i].clone()).collect(), idx: d.clone(), cidx: dc.clone(), plain_iface: false };
+                let base = Bp { suite: r.suite, pk: k.pk.clone(), proof, header: hb(&r.header).to_vec(), ph, l: r.l, dmsgs: d.iter().map(|&i| msgs[i].clone()).collect(), dcmsgs: dc.iter().map(|&i| cms[i].clone()).collect(), idx: d.clone(), cidx: dc.clone(), plain_iface: false, none_empty: false, l_none: false };
                 let letters: Vec<Vec<u8>> = vec![vec![], vec![0x01], mccore::fill(seed, "c06-letter", 32)];
                 let mut ed_: Vec<Ed<Bp>> = Vec::new();
                 if flips.1 > 0 {
@@ -187,6 +197,15 @@ pub fn run(env: &Env) {
                     ed_.push(ed("drop committed disclosure #0".into(), "cdisclosure-drop", true, |s: &Bp| { if s.cidx.is_empty() || s.dcmsgs.is_empty() { return None; } Some(Bp { cidx: s.cidx[1..].to_vec(), dcmsgs: s.dcmsgs[1..].to_vec(), ..s.clone() }) }));
                     ed_.push(ed("move last disclosed signer message into the committed list (messages only)".into(), "move-message-only", true, |s: &Bp| { let mut m = s.dmsgs.clone(); let x = m.pop()?; let mut c = s.dcmsgs.clone(); c.insert(0, x); Some(Bp { dmsgs: m, dcmsgs: c, ..s.clone() }) }));
                     ed_.push(ed("move first disclosed committed message into the signer list (messages only)".into(), "move-message-only", true, |s: &Bp| { if s.dcmsgs.is_empty() { return None; } let mut c = s.dcmsgs.clone(); let x = c.remove(0); let mut m = s.dmsgs.clone(); m.push(x); Some(Bp { dmsgs: m, dcmsgs: c, ..s.clone() }) }));
+                    // spellings: empty lists as None, L as None; alone they change nothing, together with a moved message they must not
+                    // relax the per-list checks
+                    ed_.push(ed("empty lists spelled None".into(), "spelling", true, |s: &Bp| { if s.none_empty || !(s.dmsgs.is_empty() || s.dcmsgs.is_empty() || s.idx.is_empty() || s.cidx.is_empty()) { return None; } Some(Bp { none_empty: true, ..s.clone() }) }));
+                    ed_.push(ed("L passed as None".into(), "L-none", true, |s: &Bp| { if s.l_none { return None; } Some(Bp { l_none: true, ..s.clone() }) }));
+                    ed_.push(ed("move last disclosed signer message into the committed list (messages only), empty lists spelled None".into(), "move-message-only", true, |s: &Bp| { let mut m = s.dmsgs.clone(); let x = m.pop()?; let mut c = s.dcmsgs.clone(); c.insert(0, x); Some(Bp { dmsgs: m, dcmsgs: c, none_empty: true, ..s.clone() }) }));
+                    ed_.push(ed("move first disclosed committed message into the signer list (messages only), empty lists spelled None".into(), "move-message-only", true, |s: &Bp| { if s.dcmsgs.is_empty() { return None; } let mut c = s.dcmsgs.clone(); let x = c.remove(0); let mut m = s.dmsgs.clone(); m.push(x); Some(Bp { dmsgs: m, dcmsgs: c, none_empty: true, ..s.clone() }) }));
+                    // index lists permuted against their message lists (judged by the unordered-list rule: no undisclosed pair may be accepted)
+                    ed_.push(ed("swap idx[0]<->idx[1] (messages unchanged)".into(), "idx-swap", true, |s: &Bp| { if s.idx.len() < 2 { return None; } let mut i = s.idx.clone(); i.swap(0, 1); Some(Bp { idx: i, ..s.clone() }) }));
+                    ed_.push(ed("swap cidx[0]<->cidx[1] (messages unchanged)".into(), "cidx-swap", true, |s: &Bp| { if s.cidx.len() < 2 { return None; } let mut i = s.cidx.clone(); i.swap(0, 1); Some(Bp { cidx: i, ..s.clone() }) }));
                     // relabel a disclosed committed message as a signer message at its absolute position L + 1 + j (and the converse)
                     ed_.push(ed("relabel committed disclosure #0 as a signer disclosure at position L+1+j".into(), "relabel-committed-as-signer", true, |s: &Bp| { if s.dcmsgs.is_empty() || s.cidx.is_empty() { return None; } let mut c = s.dcmsgs.clone(); let x = c.remove(0); let mut ci = s.cidx.clone(); let j = ci.remove(0); let pos = j.checked_add(s.l)?.checked_add(1)?; let mut m = s.dmsgs.clone(); let mut i = s.idx.clone(); let at = i.iter().position(|&y| y > pos).unwrap_or(i.len()); if at > m.len() { return None; } m.insert(at, x); i.insert(at, pos); Some(Bp { dmsgs: m, idx: i, dcmsgs: c, cidx: ci, ..s.clone() }) }));
                     ed_.push(ed("relabel signer disclosure #last as a committed disclosure at index i-L-1 (wrapping)".into(), "relabel-signer-as-committed", false, |s: &Bp| { let mut m = s.dmsgs.clone(); let x = m.pop()?; let mut i = s.idx.clone(); let xi = i.pop()?; let j = xi.wrapping_sub(s.l).wrapping_sub(1); let mut c = s.dcmsgs.clone(); let mut ci = s.cidx.clone(); c.push(x); ci.push(j); Some(Bp { dmsgs: m, idx: i, dcmsgs: c, cidx: ci, ..s.clone() }) }));
@@ -221,7 +240,7 @@ pub fn run(env: &Env) {
                         env.ctx.trace();
                         return;
                     }
-                    let sem = *v.state == base;
+                    let sem = v.state.stmt() == base.stmt();
                     expect(env, &r.id, &format!("blind_proof_verify after [{}]", v.path.join("; ")), &got, sem, &format!("blind-proof:{}", cls), det);
                     let skip_ref = !env.thorough() && cls == "proofflip" && !got.is_ok();
                     let rf = if skip_ref { Err("skipped".into()) } else { v.state.verify_ref() };
@@ -255,6 +274,10 @@ fn commitment_part(env: &Env, r: &Root, k: &Key, msgs: &[Vec<u8>], cms: &[Vec<u8
     for (nm, sc) in [("zero", vec![0u8; 32]), ("fresh", refbbs::sc_bytes(&refbbs::random_scalar_from(b"c06", b"c", 1)).to_vec())] { let mut x = cwp.to_vec(); let at = x.len() - 32; x.splice(at..at, sc); cands.push((format!("append {nm} scalar before the challenge"), "commitment-mhat-append", x)); }
     for t in 1..=33usize { let mut x = cwp.to_vec(); x.extend(vec![0u8; t]); cands.push((format!("{t} trailing zero octets"), "commitment-trailing", x)); }
     for t in [1usize, 31, 32, 33, 64] { if cwp.len() > t { cands.push((format!("truncate by {t} octets"), "commitment-truncate", cwp[..cwp.len() - t].to_vec())); } }
+    // the identity as commitment point with a proof that is not about it: this run's own proof scalars, and fresh scalars
+    { let mut id = vec![0u8; 48]; id[0] = 0xc0;
+      let mut x = id.clone(); x.extend_from_slice(&cwp[48..]); cands.push(("commitment point := Identity_G1, proof of this run kept".into(), "commitment-identity-point", x));
+      let mut y = id.clone(); for j in 0..(cwp.len() - 48) / 32 { y.extend_from_slice(&refbbs::sc_bytes(&refbbs::random_scalar_from(b"c06", b"id", j as u64 + 1))); } cands.push(("commitment point := Identity_G1, fresh proof scalars".into(), "commitment-identity-point", y)); }
     // honest first
     let ok = zk.blind_sign(&k.sk, &k.pk, Some(cwp), oh(&r.header), Some(msgs));
     env.ctx.state(&[r.id.as_bytes(), b"honest"]);
